@@ -577,7 +577,8 @@ class DoctestParser:
             def _statement_fits(i):
                 # A statement cannot stand between a decorator and its
                 # definition, nor in front of a clause that continues the
-                # compound statement above it; a comment can.
+                # compound statement above it, nor at column 0 in front of
+                # an indented line of a block; a comment can.
                 for prev in reversed(lines[:i]):
                     if prev.strip() and not prev.startswith('#'):
                         if prev.startswith('@'):
@@ -586,6 +587,8 @@ class DoctestParser:
                 for nxt in lines[i + 1:]:
                     if nxt.strip() and not nxt.startswith('#'):
                         if re.match(r'(else|elif|except|finally)\b', nxt):
+                            return False
+                        if nxt[:1] in ' \t':
                             return False
                         break
                 return True
